@@ -11,7 +11,7 @@ git apply "$seed/patch.diff"
 trap 'git -C /repo checkout -- . ; git -C /repo clean -fdq' EXIT
 "$here/baseline.sh" | tail -1
 for id in "$@"; do
-  out=$(VERIF_BIN_SUFFIX=.seed "$here/check" "$id" quick 2>&1); rc=$?
+  out=$(VERIF_EVIDENCE_DIR=/tmp/seed-evidence VERIF_BIN_SUFFIX=.seed "$here/check" "$id" quick 2>&1); rc=$?
   if [ $rc -eq 1 ] && echo "$out" | grep -q "^VIOLATION property=$id"; then echo "$id DETECTED (exit 1): $(echo "$out" | grep -A1 '^VIOLATION' | sed -n 2p | cut -c1-260)"
   elif [ $rc -eq 0 ]; then echo "$id MISSED (exit 0)"
   else echo "$id exit=$rc: $(echo "$out" | tail -2 | cut -c1-300)"; fi
